@@ -15,7 +15,8 @@ STD_TRUSTED = [
     "CPython str/dict/sorted and pydantic construction of Record: modelled by contract, exercised on every case; pytrie's "
     "StringTrie is modelled structurally (Model/Trie.lean, proved to refine the contract: C01_trie) and compared with the real "
     "trie by C01; the csv dialect is modelled at byte level (Model/Csv.lean, csv_roundtrip) and compared with the real files by "
-    "C14 / C15 / C16",
+    "C14 / C15 / C16; json.dumps / json.loads are modelled on the text (Model/Json.lean, parse_render; numbers excluded) and "
+    "compared with CPython's json by C14",
 ]
 
 
